@@ -317,7 +317,12 @@ int assemble_code(
     util_context.memory.write8(address, value);
   }
 
-  org = asm_context.memory.high_address + 1;
+  // The next block goes behind this one; org is in address units and stays
+  // where it is when nothing was assembled.
+  if (asm_context.memory.low_address <= asm_context.memory.high_address)
+  {
+    org = (asm_context.memory.high_address + 1) / asm_context.bytes_per_address;
+  }
 
   tokens_close(&asm_context);
 
